@@ -504,7 +504,9 @@ def run(ctx):
 
     # ---- OPS-TOKENS: the four operators are observed through patterns, so the token that selects each of them is part of this property: if "<="
     #      were read as "<", A<=A would fail and <= would no longer be the negation of >.  What C02's D1-SCAN establishes about Dewey::new's
-    #      operator scan (">=" -> GE, ">" -> GT, "<=" -> LE, "<" -> LT, searched over the whole pattern) is shared here as instances of this check.
+    #      operator scan (">=" -> GE, ">" -> GT, "<=" -> LE, "<" -> LT, searched over the whole pattern) and about the bounds compiled from it
+    #      (D1-SLICES: each bound carries the operator and the version text recorded for it -- "a two-bound pattern matches exactly when both of
+    #      its single-bound halves match") is shared here as instances of this check.
     import rules.c02 as c02
     from check import Ctx, Record
     sub = Ctx("C02", ctx.tier, ctx.fx)
@@ -512,7 +514,7 @@ def run(ctx):
     sub.desugar = bool(getattr(c02, "DESUGAR", False))
     try:
         c02.run(sub)
-        shared = [r for r in sub.records if r.rule == "D1-SCAN" and not r.instance.startswith("floor:")]
+        shared = [r for r in sub.records if r.rule in ("D1-SCAN", "D1-SLICES") and not r.instance.startswith("floor:")]
     except Exception:
         shared = None
     if not shared:
